@@ -446,3 +446,63 @@ Definition judge (c : case) : N :=
                    && accepts 1 h ref [(e0, g0)] in
       verdict agree (spec_hist e0 h o0 full ref)
   end.
+
+(* ---------------------------------------------------------------- vocabulary of the theorems *)
+(* syntactic absence of the leaking effects *)
+Definition no_on (effs : list effect) : bool :=
+  forallb (fun x => match x with EOn (S _) => false | _ => true end) effs.
+Definition no_auth (effs : list effect) : bool :=
+  forallb (fun x => match x with EAuth _ _ => false | _ => true end) effs.
+Definition no_log (effs : list effect) : bool :=
+  forallb (fun x => match x with ELog _ _ _ => false | _ => true end) effs.
+
+(* nothing is closed: every socket is still there with at least as many descriptors *)
+Definition socks_le (a b : list sock) : Prop :=
+  forall s, In s a -> exists s', In s' b /\ s_id s' = s_id s /\ s_addr s' = s_addr s /\ (s_fds s <= s_fds s')%nat.
+
+(* the failing Listen comes first, or no Listen can fail *)
+Definition listen_safe (addrs : list addr) : bool :=
+  match addrs with
+  | ABusy :: _ => true
+  | l => negb (existsb is_busy l)
+  end.
+
+(* nobody ever serves on the address that is held by somebody else *)
+Definition srv_wf (srv : list (addr * N)) : Prop := forall a sid, In (a, sid) srv -> a <> ABusy.
+Definition wf (g : gstate) : Prop := forall i, In i (g_insts g) -> srv_wf (i_servers i).
+
+(* the faithful model leaves something behind exactly through: hooks of `on` (not on the SIGUSR1 path),
+   the htpasswd cache, the rollers of startup callbacks that ran, listeners opened before a failing one *)
+Definition harmless (m : mode) (c : cfg) : bool :=
+  (match m with Sigusr1 => true | _ => no_on (c_effs c) end)
+  && no_auth (c_effs c)
+  && (match m with Validate => true | _ => no_log (c_effs c) && listen_safe (c_addrs c) end).
+
+Fixpoint attempts_failed (h : list op) (rs : list outcome) : Prop :=
+  match h, rs with
+  | [], [] => True
+  | OWrite _ _ :: h', _ :: rs' => attempts_failed h' rs'
+  | OAttempt _ _ :: h', r :: rs' => r <> ROk /\ attempts_failed h' rs'
+  | _, _ => False
+  end.
+
+Definition harmless_op (o : op) : bool :=
+  match o with OWrite _ _ => true | OAttempt m c => harmless m c end.
+
+Fixpoint writes (h : list op) (e : env) : env :=
+  match h with
+  | [] => e
+  | OWrite f hf :: r => writes r (env_set e f hf)
+  | OAttempt _ _ :: r => writes r e
+  end.
+
+Definition alive (g : gstate) (i : inst) : Prop :=
+  forall a sid, In (a, sid) (i_servers i) ->
+  exists s, In s (g_socks g) /\ s_id s = sid /\ (1 <= s_fds s)%nat.
+
+Definition roller_of (g : gstate) (i : inst) : option N :=
+  match i_log i with Some f => assoc f (g_rollers g) | None => None end.
+
+Definition cache_fresh (e : env) (g : gstate) (effs : list effect) : Prop :=
+  forall f u, In (EAuth f u) effs ->
+  assoc f (g_htcache g) = None \/ assoc f (g_htcache g) = Some (h_users (env_get e f)).
